@@ -810,6 +810,35 @@ class E3(object):
             self._site_index = idx
         ev = f.event
         occ = idx.get((ev["k"], ev["site"][:2]), [])
+        if f.may_raise == "IntegrityError" and ev["k"] == "sql":
+            # an INSERT whose key is a freshly drawn random id cannot collide
+            # (assumption of C03): that occurrence cannot raise
+            def fresh(x):
+                vals = list((x.get("binds") or {}).get("set", {}).values())
+                return any(mentions(v, lambda t: isinstance(t, tuple) and len(t) > 1 and
+                                    t[0] == "call" and t[1] == "os.urandom") for v in vals)
+            schema = self.model.repo.channel_schema()
+
+            def fk_backed(x):
+                # the key is read from a column that REFERENCES this table's
+                # key: the referenced row exists, the guard in front of the
+                # INSERT finds it and the INSERT is not reached
+                tbl = x["stmt"].table
+                for col, v in (x.get("binds") or {}).get("set", {}).items():
+                    v = plain(v)
+                    if v[0] == "sub" and v[1][0] == "row" and is_const(v[2]):
+                        src = idx.get(("sql", v[1][1][:2]), [])
+                        for se in src:
+                            t = schema.tables.get(se["stmt"].table)
+                            if t is not None and any(
+                                    c == v[2][1] and rt == tbl and (rc in (None, col))
+                                    for (c, rt, rc) in t.fks):
+                                return True
+                return False
+            kept = [x for x in occ if not fresh(x) and not fk_backed(x)]
+            occ = kept or occ[:0]
+            if not occ:
+                return [ev] if not (fresh(ev) or fk_backed(ev)) else []
         return occ or [ev]
 
     def by_kind(self, kind):
